@@ -771,3 +771,143 @@ Proof.
   rewrite E1, E2. rewrite !val_round by (subst ax1 ax2; fin).
   rewrite <- Zle_Qle. apply q_round_mono. exact L.
 Qed.
+
+(* ------------------------------------------------------------------------------------------------------------
+   8. the rounding flag: any Num instance (in particular binary32) *)
+Section Flag.
+  Context {T : Type} `{Num T}.
+
+  (* every compute_layout event of the history leaves the same unrounded tree u (unchanged styles and available
+     space: C01) *)
+  Definition computes (u : tree T) (o : op T) : Prop :=
+    match o with ComputeLayout u' => u' = u | _ => True end.
+
+  Lemma step_unrounded (s : state T) (o : op T) :
+    unrounded_layout (step s o) = match o with ComputeLayout u => u | _ => unrounded_layout s end.
+  Proof. destruct o; reflexivity. Qed.
+
+  Lemma step_final (s : state T) (o : op T) :
+    final_layout (step s o) = final_layout s \/
+    exists u, o = ComputeLayout u /\ use_rounding s = true /\ final_layout (step s o) = round_layout u.
+  Proof.
+    destruct o; cbn [step final_layout]; auto.
+    unfold compute_rounds. destruct (use_rounding s); [right; exists u; auto | left; reflexivity].
+  Qed.
+
+  Lemma first_pass (s : state T) (u : tree T) :
+    use_rounding s = true ->
+    unrounded_layout (step s (ComputeLayout u)) = u /\ final_layout (step s (ComputeLayout u)) = round_layout u /\
+    use_rounding (step s (ComputeLayout u)) = true.
+  Proof. intros E. cbn [step unrounded_layout final_layout use_rounding]. unfold compute_rounds. rewrite E. auto. Qed.
+
+  Lemma no_drift (u : tree T) : forall (ops : list (op T)) (s : state T),
+    Forall (computes u) ops -> unrounded_layout s = u -> final_layout s = round_layout u ->
+    unrounded_layout (run s ops) = u /\ final_layout (run s ops) = round_layout u.
+  Proof.
+    induction ops as [|o ops IH]; intros s Hc Hu Hf; cbn [run fold_left].
+    - auto.
+    - inversion Hc; subst. apply IH; [assumption| |].
+      + destruct o as [| |u']; cbn [step unrounded_layout]; auto.
+      + destruct o as [| |u']; cbn [step final_layout]; auto.
+        cbn [computes] in H2. subst u'. destruct (compute_rounds (use_rounding s)); auto.
+  Qed.
+
+  Lemma layout_of_spec (s : state T) :
+    layout_of s = if use_rounding s then final_layout s else unrounded_layout s.
+  Proof. unfold layout_of, layout_reads_final. destruct (use_rounding s); reflexivity. Qed.
+
+  (* a new tree (rounding enabled by default), one compute_layout, then any history *)
+  Lemma no_drift_from_new (s0 : state T) (u : tree T) (ops : list (op T)) :
+    use_rounding s0 = default_use_rounding -> Forall (computes u) ops ->
+    let s := run s0 (ComputeLayout u :: ops) in
+    unrounded_layout s = u /\ final_layout s = round_layout u /\
+    layout_of s = if use_rounding s then round_layout u else u.
+  Proof.
+    intros E Hc s. subst s. cbn [run fold_left].
+    destruct (first_pass s0 u E) as (A & B & _).
+    destruct (no_drift u ops _ Hc A B) as [C D]. fold (run (step s0 (ComputeLayout u)) ops).
+    rewrite layout_of_spec. unfold run in *. rewrite C, D. auto.
+  Qed.
+
+  (* the pitfall: enable_rounding does not round; layout() reads whatever final_layout held *)
+  Lemma enable_is_stale (s : state T) :
+    layout_of (step s EnableRounding) = final_layout s.
+  Proof. reflexivity. Qed.
+End Flag.
+
+(* ------------------------------------------------------------------------------------------------------------
+   9. concrete trees (non-vacuity, and the half-pixel counterexample) *)
+Definition qbox (x y w h : Q) (b p : Q) : layout XQ :=
+  mk_layout 0 (Fin x) (Fin y) (Fin w) (Fin h) (Fin w) (Fin h) (Fin 0) (Fin 0)
+            (Fin b) (Fin b) (Fin b) (Fin b) (Fin p) (Fin p) (Fin p) (Fin p) (Fin 0) (Fin 0) (Fin 0) (Fin 0).
+
+(* root at 0; a container at the integral offset (3, 2); two children that touch at x = 3 + 0.4 + 0.4 = 3.8 *)
+Definition ex_tree : tree XQ :=
+  Node (qbox 0 0 40 20 0 0)
+    [Node (qbox 3 2 (203 # 10) 10 (3 # 10) (12 # 10))
+       [Node (qbox (4 # 10) (3 # 10) (4 # 10) (5 # 2) 0 0) [];
+        Node (qbox (8 # 10) (3 # 10) (31 # 10) (5 # 2) (1 # 4) (1 # 3)) []]].
+
+(* parent at x = 2; A at -3.5 (width 3) and B at -0.5 touch at the absolute half pixel 1.5 *)
+Definition half_tree : tree XQ :=
+  Node (qbox 0 0 40 10 0 0)
+    [Node (qbox 2 0 20 10 0 0)
+       [Node (qbox (- (7 # 2)) 0 3 10 0 0) [];
+        Node (qbox (- (1 # 2)) 0 3 10 0 0) []]].
+
+Definition abs_right (t : tree XQ) (p : list nat) : XQ :=
+  match node_at t p with
+  | Some l => add (add (sum_x (ancestors t p)) (location_x l)) (size_width l)
+  | None => XNaN
+  end.
+Definition abs_left (t : tree XQ) (p : list nat) : XQ :=
+  match node_at t p with
+  | Some l => add (sum_x (ancestors t p)) (location_x l)
+  | None => XNaN
+  end.
+
+Lemma ex_tree_fin : tree_all fin_layout ex_tree.
+Proof. repeat (constructor; try (cbv; tauto)). Qed.
+Lemma half_tree_fin : tree_all fin_layout half_tree.
+Proof. repeat (constructor; try (cbv; tauto)). Qed.
+
+Lemma ex_premises :
+  Forall (fun a => integral (location_x a)) (ancestors ex_tree [0; 0]%nat) /\
+  ~ on_half (abs_left ex_tree [0; 0]%nat) /\ ~ on_half (abs_left ex_tree [0; 1]%nat) /\
+  xeq (abs_right ex_tree [0; 0]%nat) (abs_left ex_tree [0; 1]%nat) /\
+  xeq (x_red (abs_left ex_tree [0; 1]%nat)) (Fin (19 # 5)) /\
+  x_red (abs_right (round_layout ex_tree) [0; 0]%nat) = Fin 4 /\
+  x_red (abs_left (round_layout ex_tree) [0; 1]%nat) = Fin 4.
+Proof.
+  split; [|split; [|split; [|split; [|split; [|split]]]]].
+  - repeat constructor; [exists 0%Z | exists 3%Z]; reflexivity.
+  - intros Hh. unfold on_half in Hh. set (v := abs_left ex_tree [0; 0]%nat) in Hh. vm_compute in v. subst v.
+    cbv beta iota in Hh. destruct Hh as [z Hz]. unfold Qeq in Hz. simpl in Hz. lia.
+  - intros Hh. unfold on_half in Hh. set (v := abs_left ex_tree [0; 1]%nat) in Hh. vm_compute in v. subst v.
+    cbv beta iota in Hh. destruct Hh as [z Hz]. unfold Qeq in Hz. simpl in Hz. lia.
+  - vm_compute. reflexivity.
+  - vm_compute. reflexivity.
+  - vm_compute. reflexivity.
+  - vm_compute. reflexivity.
+Qed.
+
+(* without the half-pixel premise the conclusion of C13_edges / C13_no_seam fails in exact arithmetic: all ancestors
+   at integral offsets, A's right edge = B's left edge = 1.5, but after rounding A ends at 2 and B starts at 1 *)
+Lemma half_counterexample :
+  Forall (fun a => integral (location_x a)) (ancestors half_tree [0; 0]%nat) /\
+  Forall (fun a => integral (location_x a)) (ancestors half_tree [0; 1]%nat) /\
+  xeq (abs_right half_tree [0; 0]%nat) (abs_left half_tree [0; 1]%nat) /\
+  on_half (abs_left half_tree [0; 1]%nat) /\
+  x_red (abs_right (round_layout half_tree) [0; 0]%nat) = Fin 2 /\
+  x_red (abs_left (round_layout half_tree) [0; 1]%nat) = Fin 1 /\
+  x_red (fround (abs_left half_tree [0; 1]%nat)) = Fin 2.
+Proof.
+  split; [|split; [|split; [|split; [|split; [|split]]]]].
+  - repeat constructor; [exists 0%Z | exists 2%Z]; reflexivity.
+  - repeat constructor; [exists 0%Z | exists 2%Z]; reflexivity.
+  - vm_compute. reflexivity.
+  - exists 1%Z. vm_compute. reflexivity.
+  - vm_compute. reflexivity.
+  - vm_compute. reflexivity.
+  - vm_compute. reflexivity.
+Qed.
